@@ -16,7 +16,7 @@ RULE = (
     "read-write; read-only + read-write; two read-write with take_only / exclude}; oracle = an independent reference planner: "
     "plugins that ran (compute counters) == plugins on a path from the target to the nearest stored types; every running plugin "
     "saw each whole-run input row exactly once and from the right origin (rows carry the phase in which their data type was computed: stored copy vs computed now); directories created == policy(save_when, target, save, modifier) per accepting "
-    "writable frontend; DataNotAvailable when creation is forbidden or an ALWAYS type is missing under a time range. "
+    "writable frontend; additionally is_stored(run, (a, b)) for every ordered pair and make(run, (a, b)) for the multi-output plugin's two outputs in both orders == union of the single-target plans; DataNotAvailable when creation is forbidden or an ALWAYS type is missing under a time range. "
     "non-trivial: at least one plugin must run and one type is stored; distinct by the full configuration."
 )
 ASSUMPTIONS = [
@@ -296,6 +296,77 @@ def run_case(res, pi, stored, target, use_save, modifier, forbid_kind, layout, p
     res.add_set("plans", (tuple(sorted(exp_run)), tuple(sorted(exp_saved))))
 
 
+# (pairs of types from DIFFERENT plugins are left out: what make() promises for them - which of several end targets is driven,
+# whether TARGET-policy applies to a non-final target - is not stated by the property or the documentation)
+PAIRS = (("mo_a", "mo_b"), ("mo_b", "mo_a"))
+
+
+def run_multi(res, pi, stored, use_save, layout, proc):
+    """several targets in one call: is_stored(run, (a, b)) == is_stored(a) and is_stored(b) for every ordered pair of types, and
+    make(run, (a, b)) runs / saves the union of what the single-target plans need (the multi-output plugin's two outputs, both orders)"""
+    pol = policies()[pi]
+    stored = frozenset(stored)
+    for targets in PAIRS:
+        world, classes, ref = world_and_classes()
+        case = dict(multi=True, policy=pi, stored=sorted(stored), targets=targets, use_save=use_save, frontends=layout, processor=proc)
+        base = ctxrun.fresh_dir("c11")
+        set_policy(classes, {t: SW.EXPLICIT for t in TYPES})
+        world.tag = 1
+        st0 = strax.Context(storage=frontends(layout, base, readonly_store=True), register=classes, **g.CTX_DEFAULTS)
+        for t in TYPES:
+            if t in stored:
+                st0.make(RUN, t, save=(t,), processor="single_thread", progress_bar=False)
+        eff_stored = frozenset(t for t in stored if st0.is_stored(RUN, t))
+        set_policy(classes, pol)
+        world.tag = 2
+        # (targets of different data kinds need allow_multiple=True, which strax only accepts outside lazy mode)
+        st = strax.Context(storage=frontends(layout, base), register=classes, **dict(g.CTX_DEFAULTS, allow_lazy=False))
+        # ---- is_stored with a tuple of targets
+        if targets == PAIRS[0]:
+            for a in TYPES:
+                for b in TYPES:
+                    if a != b and bool(st.is_stored(RUN, (a, b))) != (a in eff_stored and b in eff_stored):
+                        res.violation("is_stored:tuple", f"is_stored(run, ({a}, {b})) = {st.is_stored(RUN, (a, b))} but separately {a in eff_stored}, {b in eff_stored}", dict(case, pair=(a, b)))
+                        return
+        save = tuple(t for t in TYPES if pol[t] == SW.EXPLICIT) if use_save else ()
+        plans = [reference_plan(pol, eff_stored, t, save, "none", None) for t in targets]
+        exp_run = set().union(*[p[1] for p in plans])
+        exp_saved = set()
+        for P in exp_run:
+            for dt in PROVIDES[P]:
+                if dt not in eff_stored and (pol[dt] == SW.ALWAYS or (pol[dt] == SW.TARGET and dt in targets) or (pol[dt] == SW.EXPLICIT and dt in save)):
+                    exp_saved.add(dt)
+        if all(t in eff_stored for t in targets):
+            exp_run, exp_saved = set(), set()
+        world.calls.clear()
+        world.source_calls.clear()
+        world.log.clear()
+        before = listing(base)
+        f = lambda: st.make(RUN, targets, save=save, processor=proc, progress_bar=False, allow_multiple=True)
+        try:
+            with warnings.catch_warnings():
+                warnings.simplefilter("ignore")
+                ctxrun.run_controlled(f) if proc == "threaded_mailbox" else f()
+        except ctxrun.Deadlock as e:
+            res.violation("multi:deadlock", str(e), case)
+            continue
+        except Exception as e:
+            res.violation("multi:raised:" + ctxrun.exc_fp(e), f"make of {targets} raised {type(e).__name__}: {e}"[:300], case)
+            continue
+        ran = {n for n in ("mo", "nn", "lp") if world.calls.get(n, 0) > 0} | ({"src"} if world.source_calls.get("src", 0) > 0 else set())
+        if ran != exp_run:
+            res.violation(f"multi:ran:{'extra' if ran - exp_run else 'missing'}", f"make({targets}): plugins that ran {sorted(ran)} != union of the single-target plans {sorted(exp_run)} (stored {sorted(eff_stored)})", case)
+            continue
+        got_types = {}
+        for x in listing(base) - before:
+            dn, name = x.split("/")
+            got_types.setdefault(name.split("-")[1], set()).add(dn)
+        exp_types = {t: set(accepting_dirs(layout, t)) for t in exp_saved if accepting_dirs(layout, t)}
+        if got_types != exp_types:
+            res.violation("multi:saved", f"make({targets}, save={save}): saved {dict((k, sorted(v)) for k, v in got_types.items())} expected {dict((k, sorted(v)) for k, v in exp_types.items())} (stored {sorted(eff_stored)}, policy {dict((k, int(v)) for k, v in pol.items())})", case)
+        res.count("multi_target_cases")
+
+
 def plan(tier, seed):
     NS = 32 if tier == "quick" else 128
     return [(sh, NS, tier, seed) for sh in range(NS)]
@@ -333,6 +404,10 @@ def run_job(job):
                             res.nt(pi, tuple(sorted(stored)), target, use_save, modifier, forbid, layout, proc)
                         res.add_set("mod_forbid_frontend", (modifier, forbid, layout, proc))
                         run_case(res, pi, stored, target, use_save, modifier, forbid, layout, proc)
+                    if target == "src" and (tier == "thorough" or (i // ns) % 2 == 0):
+                        res.evals += 1
+                        # (several targets of different data kinds are only supported by the threaded processor)
+                        run_multi(res, pi, stored, use_save, FRONTENDS[(j // 6) % 3], "threaded_mailbox")
                     if i % 1013 == 0:
                         res.sample(dict(policy={k: int(v) for k, v in P[pi].items()}, stored=sorted(stored), target=target, save_explicit_types=use_save, combos=combos[:1]), cap=2)
     return res
@@ -341,6 +416,9 @@ def run_job(job):
 def replay(case):
     worker_init()
     res = Result()
+    if case.get("multi"):
+        run_multi(res, case["policy"], case["stored"], case["use_save"], case["frontends"], case["processor"])
+        return res.violations
     run_case(res, case["policy"], case["stored"], case["target"], case["use_save"], case["modifier"], case["forbid"], case["frontends"], case["processor"])
     return res.violations
 
@@ -348,5 +426,7 @@ def replay(case):
 def sanity(total, tier):
     if len(total.sets.get("plans", ())) < 20:
         return f"only {len(total.sets.get('plans', ()))} distinct (run set, saved set) plans"
+    if total.counters.get("multi_target_cases", 0) < 200:
+        return "too few multi-target cases"
     if len(total.sets.get("mod_forbid_frontend", ())) < 30:
         return "too few modifier/forbid/frontend combinations"
